@@ -33,7 +33,7 @@ META = {
                     "threshold >= 1e-8: the NumPy routine adds 1e-10 to every pivot after the first, so its accuracy floor is ~1e-10 (stated bound)",
                     "JAX routine: the requested number of vectors equals the number of columns of B, and the pivots met are non-zero (generic rank)"],
     "bounds": {"quick": "NumPy routine: n = 1, 2 with every rank, n = 3 with rank 1; JAX routine: (n, r) in (2,1), (2,2), (3,1); JVP at (2,1), (3,1) (the JVP through a second pivot step divides by a constant zero in the interpreter and is not covered)",
-               "thorough": "NumPy n = 3 rank 2; JAX (3,2)"},
+               "thorough": "as quick, plus the symmetrisation at norb 3 (NumPy n = 3 rank 2 and JAX (3,2) do not finish: see cases())"},
     "outside": "n > 3; chunked_cholesky (pyscf integrals); floating-point pivot ties; rank-deficient input with more requested vectors than the rank",
 }
 
@@ -309,7 +309,9 @@ def cases(tier):
            {"type": "jax", "n": 2, "r": 1}, {"type": "jax", "n": 2, "r": 2}, {"type": "jax", "n": 3, "r": 1},
            {"type": "jax", "n": 2, "r": 1, "jvp": 1}, {"type": "jax", "n": 3, "r": 1, "jvp": 1}, {"type": "sym", "norb": 2}]
     if tier == "thorough":
-        out += [{"type": "numpy", "n": 3, "r": 2}, {"type": "jax", "n": 3, "r": 2}]
+        # measured and therefore not run: numpy n = 3 rank 2 (> 45 min of path feasibility queries in nonlinear real arithmetic) and jax n = 3
+        # rank 2 (feasibility of the second-pivot branches comes back unknown); the thorough tier adds the symmetrisation at norb 3 instead
+        out += [{"type": "sym", "norb": 3}]
     return out
 
 
